@@ -26,13 +26,27 @@ import (
 
 	"github.com/golang-jwt/jwt/v4"
 	"github.com/zeromicro/go-zero/rest/handler"
+	"github.com/zeromicro/go-zero/verifshim/vsched"
 )
 
 const (
-	jwtNow  = int64(1_700_000_000) // jwt.TimeFunc is pinned to this instant
 	secretS = "C18-current-secret-0123456789abcdef"
 	secretP = "C18-previous-secret-fedcba9876543210"
 )
+
+// jwtNow is the instant all token time claims are built around. It is the zero point of the
+// process-global VIRTUAL clock (vsched.Epoch + offset): jwt.TimeFunc, timex.Now (rewritten
+// core/timex/relativetime.go) and time.Now inside the rewritten rest/token package all read that
+// one clock, which only moves when a history executes a clock-jump operation (hist.go). Real
+// time is not virtualised anywhere else: anything the code under test keeps alive on a real-time
+// TTL stays alive for the whole (micro-seconds long) history.
+var jwtNow = vsched.Epoch.Unix()
+
+// vOffset is how far the virtual clock has been moved from jwtNow.
+func vOffset() time.Duration { return vsched.TimeNow().Sub(vsched.Epoch) }
+
+// curNow is the current virtual time in unix seconds: the oracle judges every request at this instant.
+func curNow() int64 { return jwtNow + int64(vOffset()/time.Second) }
 
 var stdClaimNames = []string{"aud", "exp", "jti", "iat", "iss", "nbf", "sub"}
 
@@ -45,7 +59,7 @@ func isStdClaim(k string) bool {
 	return false
 }
 
-func pinJWTClock() { jwt.TimeFunc = func() time.Time { return time.Unix(jwtNow, 0) } }
+func pinJWTClock() { jwt.TimeFunc = func() time.Time { return time.Unix(jwtNow, 0).Add(vOffset()) } }
 
 // ---------- wire-level case ----------
 
@@ -204,7 +218,7 @@ func jwtOracle(c jwtCase) jwtExpect {
 		return jwtExpect{Verdict: mustNot, Reason: "no-authorization"}
 	}
 	if len(c.Auth) == 1 && strings.HasPrefix(c.Auth[0], "Bearer ") && !strings.ContainsAny(c.Auth[0][7:], " \t,") {
-		v := verifyToken(c.Auth[0][7:], c.Cfg, jwtNow)
+		v := verifyToken(c.Auth[0][7:], c.Cfg, curNow())
 		switch {
 		case !v.OK:
 			return jwtExpect{Verdict: mustNot, Reason: v.Reason}
@@ -220,7 +234,7 @@ func jwtOracle(c jwtCase) jwtExpect {
 			cands = append(cands, strings.TrimSpace(val[6:]))
 		}
 		for _, t := range cands {
-			if v := verifyToken(t, c.Cfg, jwtNow); v.OK {
+			if v := verifyToken(t, c.Cfg, curNow()); v.OK {
 				return jwtExpect{Verdict: either, Reason: "noncanonical-valid", Claims: v.Claims}
 			}
 		}
@@ -311,11 +325,13 @@ type pending struct {
 }
 
 type replayCase struct {
-	Family string     `json:"family"`
-	JWT    *jwtCase   `json:"jwt,omitempty"`
-	CS     *csCase    `json:"cs,omitempty"`
-	Crypt  *cryptCase `json:"crypt,omitempty"`
-	Seq    *seqCase   `json:"seq,omitempty"`
+	Family string      `json:"family"`
+	JWT    *jwtCase    `json:"jwt,omitempty"`
+	CS     *csCase     `json:"cs,omitempty"`
+	Crypt  *cryptCase  `json:"crypt,omitempty"`
+	Seq    *seqCase    `json:"seq,omitempty"`
+	Hist   *histCase   `json:"hist,omitempty"`
+	Script *scriptCase `json:"script,omitempty"`
 }
 
 func jwtProbe(exp jwtExpect) []string {
